@@ -177,10 +177,12 @@ def _one(job):
     return got, st
 
 
-def main(run):
+def main(run, mc=None, budget=None, finish=True):
+    """finish=False: only run the programs and record violations (used by C01, whose statement covers the
+    comprehension forms too), with a smaller bound and budget"""
     rng = random.Random(run.seed)
     q = run.quick
-    mc = 3 if q else 4
+    mc = mc or (3 if q else 4)
     r = tlc.run("HyCompr", tlc.cfg(constants={"MaxClauses": mc},
                                    invariants=["NoLeak", "ElseOnce", "ElseWithoutBreak", "EmptyOuter", "YieldAfterFinal", "Export"]),
                 run.work, workers=16, label="compr", timeout=3000)
@@ -190,7 +192,7 @@ def main(run):
     rows = r.ex("PROG")
     run.log(f"TLC: {len(rows)} specified programs")
     heads = {"seq": ["lfor", "sfor", "gfor"], "dict": ["dfor"], "for": ["for"]}
-    budget = 14000 if q else 200000
+    budget = budget or (14000 if q else 200000)
     # all short programs, a sample of the long ones
     rows.sort(key=lambda x: (len(x["cl"]), json.dumps(x, sort_keys=True)))
     ns = 1 if q else 2
@@ -247,6 +249,8 @@ def main(run):
             run.cov["traces_validated_against_impl"] += 1
     if min(strategies.values()) == 0 or min(scopes_seen.values()) == 0:
         raise MachineryError(f"vacuous: strategies {strategies}, scopes {scopes_seen}")
+    if not finish:
+        return done
     run.sample({"program": render_program("lfor", ordered[len(short) // 2], 0, "fn"), "spec": ordered[len(short) // 2]})
     return run.finish("model_checking",
                       f"clause lists of length <= {mc} over iteration / :if / :setv / :do clauses, final parts (value, tuple, "
